@@ -215,7 +215,35 @@ where
         if let TyKind::Adt(adt_id, _) = ty {
             self.record(*adt_id);
         }
-        self.ws.db().impl_provided_for(auto_trait_id, ty)
+        let provided = self.ws.db().impl_provided_for(auto_trait_id, ty);
+        if provided {
+            // An explicit impl suppresses the default auto impl for *every*
+            // instantiation of the type, e.g. `impl Send for Foo<A>` also
+            // suppresses it for `Foo<B>`. Such an impl need not match the
+            // goal, so `impls_for_trait` may never report it; record it here,
+            // or the logged program would fall back to the default auto impl.
+            let interner = self.interner();
+            let any_ty = TyKind::BoundVar(BoundVar::new(DebruijnIndex::INNERMOST, 0));
+            let any_ty = GenericArgData::Ty(any_ty.intern(interner)).intern(interner);
+            let binders = CanonicalVarKinds::from1(
+                interner,
+                CanonicalVarKind::new(
+                    VariableKind::Ty(TyVariableKind::General),
+                    UniverseIndex::ROOT,
+                ),
+            );
+            let impl_ids = self
+                .ws
+                .db()
+                .impls_for_trait(auto_trait_id, &[any_ty], &binders);
+            self.record_all(impl_ids.into_iter().filter(|&impl_id| match ty {
+                TyKind::Adt(adt_id, _) => {
+                    self.ws.db().impl_datum(impl_id).self_type_adt_id(interner) == Some(*adt_id)
+                }
+                _ => true,
+            }));
+        }
+        provided
     }
 
     fn well_known_trait_id(
